@@ -8,6 +8,10 @@
    The event loop (SelectEventLoop) is abstracted to its C13 contract: due alarms fire in order,
    then the idle callbacks run, then the next scripted round of events arrives; ExitMainLoop
    ends run() normally, every other exception propagates.
+   Deliberately not modelled (none of it is reachable in the scripted sessions): Screen._resized
+   (a resize is delivered before the next redraw), tty_signal_keys (re-writes the values it read at
+   start), gpm mouse tracking (linux console only), the canvas cache, screen_buf diffing inside
+   Screen.draw_screen (only its cursor hide / show writes matter for the terminal modes).
    NO PROOFS IN THIS FILE.  Names of the Python functions are given above each definition. *)
 From Coq Require Import ZArith List Bool.
 Import ListNotations.
@@ -223,7 +227,9 @@ Definition or_dfl (o : option Z) : Z := match o with None => 0 | Some h => h end
 (* Screen.signal_restore *)
 Definition signal_restore : M unit :=
   a <- get (fun s => s_prev_tstp (scr s)) ;; upd_tm (set_tstp (or_dfl a)) ;;;
-  b <- get (fun s => s_prev_cont (scr s)) ;; upd_tm (set_cont (or_dfl b)) ;;;
+  b <- get (fun s => s_prev_cont (scr s)) ;;
+  (* `if self._prev_sigcont_handler is not None:` only _sigtstp_handler() replaces the SIGCONT handler *)
+  (match b with Some h => upd_tm (set_cont h) | None => ret tt end) ;;;
   d <- get (fun s => s_prev_winch (scr s)) ;; upd_tm (set_winch (or_dfl d)).
 
 (* Screen._start(alternate_buffer=True)  (_posix_raw_display.py) *)
